@@ -6,6 +6,7 @@ Case line (see lean/SkimModel/Driver/C06.lean):
 import re
 
 ID = "C06"
+EXTRA_PROPS = ["ItemFnsTables"]   # the glue of DefaultSkimItem::new / output as TRANSLATED from src/helper/item.rs = the model; --nth ranges on the stripped item text
 NEEDS_SK = True     # the cli-level cases run the real `sk -f` (built by core.build_sk, path in VERIF_SK_BIN)
 N_QUICK, N_THOROUGH = 2600, 60000
 STRICT_MODEL = False   # the model fixes the outcome also where the property leaves it open (its two exclusions);
